@@ -1373,7 +1373,7 @@ type = "raw"
 [cost.vehicle_rates.distance]
 type = "raw"
 [plugin]
-input_plugins = []
+input_plugins = [ {{ type = "grid_search" }} ]
 output_plugins = [ {{ type = "summary" }}, {{ type = "traversal", route = "edge_id", geometry_input_file = "{d}/edge_geometries.txt" }} ]
 [response_output_policy]
 type = "file"
@@ -1386,6 +1386,33 @@ newline_delimited = true
         d = d,
         f = out.join("app_toml_policy.jsonl").to_str().unwrap()
     )
+}
+
+/// the six kinds of query of the app stream
+fn query_of(kind: char) -> Value {
+    match kind {
+        'N' => json!(7),                                                                              // not an object
+        'W' => json!({"origin_vertex": 0, "destination_vertex": 2, "query_weight_estimate": "abc"}), // ill-typed weight
+        'P' => json!({"origin_vertex": 0, "destination_vertex": 2, "grid_search": 5}),              // rejected by the grid_search plugin
+        'X' => json!({"origin_vertex": 2, "destination_vertex": 0}),                                 // fails in the search: no path
+        'U' => json!({"origin_vertex": 0, "destination_vertex": 99}),                                // fails in the search: unknown vertex
+        _ => json!({"origin_vertex": 0, "destination_vertex": 2}),                                   // succeeds
+    }
+}
+fn query_kind(q: &Value) -> &'static str {
+    if !q.is_object() {
+        "not_an_object"
+    } else if q.get("query_weight_estimate").is_some() {
+        "bad_weight"
+    } else if q.get("grid_search").is_some() {
+        "plugin_rejected"
+    } else if q["destination_vertex"] == json!(99) {
+        "unknown_vertex"
+    } else if q["origin_vertex"] == json!(2) && q["destination_vertex"] == json!(0) {
+        "no_path"
+    } else {
+        "search"
+    }
 }
 
 fn app_mapping(sorted: bool) -> FmtDoc {
@@ -1418,7 +1445,7 @@ fn app_case(st: &mut Stream, app: &Arc<CompassApp>, pr: &AppParams, family: &str
     let mut prev_len = 0usize;
     let mut hung = false;
     for _run in 0..pr.runs {
-        let queries: Vec<Value> = if let Some(q) = &pr.explicit { kinds.insert("explicit"); if q.iter().any(|x| x.get("query_weight_estimate").is_some()) { kinds.insert("bad_weight"); } q.clone() } else { (0..pr.queries)
+        let queries: Vec<Value> = if let Some(q) = &pr.explicit { for x in q { kinds.insert(query_kind(x)); } q.clone() } else { (0..pr.queries)
             .map(|_| match r.below(8) {
                 0 => { kinds.insert("unknown_vertex"); json!({"origin_vertex": r.range(0, 2), "destination_vertex": 99}) }
                 1 => { kinds.insert("bad_weight"); json!({"origin_vertex": r.range(0, 2), "destination_vertex": r.range(0, 2), "query_weight_estimate": "abc"}) }
@@ -1613,6 +1640,38 @@ fn app_stream(a: &Args) {
             app_case(&mut st, &app, &AppParams { persist, csv, seed: 7, queries: 12, parallelism: 3, runs: 2, flush: Some(5), ..base.clone() }, "boundary_two_runs_same_file", &dir);
         }
         app_case(&mut st, &app, &AppParams { persist, seed: 8, queries: 10, parallelism: 2, toml_policy: true, ..base.clone() }, "boundary_policy_from_toml", &dir);
+    }
+    // batches by outcome: every query fails before the search / in the search / succeeds, exactly one
+    // fails (first, middle, last), the empty batch; both policies, both formats, parallelism 1..16 in turn
+    let mut shapes: Vec<(&str, String)> = vec![];
+    for n in [1usize, 3, 8] {
+        for k in ["N", "W", "P", "NWP"] {
+            shapes.push(("all_fail_before_search", k.chars().cycle().take(n).collect()));
+        }
+        for k in ["X", "XU"] {
+            shapes.push(("all_fail_in_search", k.chars().cycle().take(n).collect()));
+        }
+        shapes.push(("all_succeed", "G".repeat(n)));
+    }
+    for bad in ['N', 'W', 'P', 'X'] {
+        for pos in [0usize, 2, 4] {
+            shapes.push(("exactly_one_fails", (0..5).map(|i| if i == pos { bad } else { 'G' }).collect()));
+        }
+    }
+    shapes.push(("empty_batch", String::new()));
+    let mut turn = 0usize;
+    for (fam, shape) in &shapes {
+        for persist in [true, false] {
+            for csv in [false, true] {
+                turn += 1;
+                let pr = AppParams {
+                    seed: 9, queries: shape.len(), parallelism: 1 + turn % 16, persist, csv, sorted: turn % 2 == 0,
+                    flush: if turn % 3 == 0 { Some(2) } else { None }, runs: if *fam == "all_fail_before_search" && shape.len() == 3 { 2 } else { 1 },
+                    toml_policy: false, explicit: Some(shape.chars().map(query_of).collect()),
+                };
+                app_case(&mut st, &app, &pr, fam, &dir);
+            }
+        }
     }
     let mut rng = Rng::new(a.seed);
     while st.next_id() < a.n {
